@@ -7,6 +7,10 @@ _MD = None
 
 
 def doc_of(case):
+    if case["params"].get("template"):
+        from checks.scan_real import doc_of as d2
+
+        return d2(case)
     out = list(case["params"]["skeleton"])
     for k, h in enumerate(case["params"]["holes"]):
         out[h] = chr(case["vars"][f"c{k}"])
@@ -47,6 +51,8 @@ def replay(case):
     elif rule == "md013":
         n = v["limit"]
         cfg = {"line_length": n, "heading_line_length": n, "code_block_line_length": n, "strict": bool(v["strict"])}
+    elif rule in ("md025", "md041"):
+        cfg = {"level": v["level"]}
     elif rule == "md013x":
         cfg = {"line_length": v["limit"], "heading_line_length": v["hlimit"], "code_block_line_length": v["climit"], "code_blocks": bool(v["code_blocks"]), "headings": bool(v["headings"])}
     else:
@@ -74,6 +80,14 @@ def replay(case):
         if has_container or has_html:
             return {"violates": False, "observed": dict(obs, note="containers/html: outside the MD013 special-elements oracle")}
         want = rrule.md013x(lines, code, rrule.heading_lines(mtoks), (cfg["line_length"], cfg["heading_line_length"], cfg["code_block_line_length"]), cfg["code_blocks"], cfg["headings"], False)
+    elif rule in ("md001", "md018", "md019", "md023", "md040", "md025", "md041"):
+        if has_container or (has_html and rule == "md041"):
+            return {"violates": False, "observed": dict(obs, note="containers/html: outside this oracle")}
+        want = {"md001": lambda: rrule.md001(mtoks), "md018": lambda: rrule.md018(lines, mtoks), "md019": lambda: rrule.md019(lines, mtoks),
+                "md023": lambda: rrule.md023(lines, mtoks), "md040": lambda: rrule.md040(mtoks), "md025": lambda: rrule.md025(mtoks, cfg["level"]),
+                "md041": lambda: rrule.md041(lines, mtoks, cfg["level"])}[rule]()
+        if want is None:
+            return {"violates": False, "observed": dict(obs, note="outside this oracle")}
     elif rule == "md047":
         if not d:
             return {"violates": False, "observed": obs}
